@@ -42,7 +42,7 @@ kind = "termination" (a bounded harness whose obligation is "the call returns"):
 input size, and its #[kani::unwind(K)] is chosen so that on the pinned tree every loop has exited within
 K iterations (the harness passing on /repo is what shows K suffices).  In THIS kind a failed
 `unwinding assertion` of a loop located in one of the `termination_of` functions (any loop, if the list
-is absent) is a FAILURE of the termination obligation — the loop was still running after K iterations
+is absent; a kind = "bounded" harness that sets `termination_of` gets the same treatment) is a FAILURE of the termination obligation — the loop was still running after K iterations
 on an input for which it used to stop — not "undetermined".  Unwinding failures elsewhere (std, itertools,
 the harness's own loops) stay undecided.  The replay template must carry its own watchdog (run the call in
 a thread, report VERIF-REPLAY-REPRODUCED if it has not returned after a few seconds).
@@ -408,7 +408,7 @@ def classify_run(rc, out, secs, timeout, harness):
     fails = [c for c in props if c['status'] == 'FAILURE']
     genuine = [c for c in fails if not UNDECIDED_CHECK.search(c['description'])]
     soft = [c for c in fails if UNDECIDED_CHECK.search(c['description'])]
-    if harness.get('kind') == 'termination':
+    if harness.get('kind') == 'termination' or harness.get('termination_of'):
         fns = harness.get('termination_of') or []
         nonterm = [c for c in soft if re.search(r'unwinding assertion|recursion unwinding', c['description'])
                    and (not fns or any(re.search(r'\b%s\b' % re.escape(f), c['location'] + ' ' + c['id']) for f in fns))]
